@@ -55,6 +55,17 @@ def shared_roots():
     Returns (names, containers).  Used only to *place* pre-emptions (a frame that names such a
     container, or receives one of its elements as an argument, is about to touch shared state)."""
     names, roots, labels = set(), [], []
+    libmods = set()
+    for mod in list(sys.modules.values()):
+        f = getattr(mod, '__file__', None)
+        if f and f.startswith(LIB_ROOT):
+            libmods.add(mod.__name__)
+
+    def lib_instance(v):
+        t = type(v)
+        return (getattr(t, '__module__', None) in libmods and not isinstance(v, type)
+                and hasattr(v, '__dict__') and not callable(v))
+
     for mod in sorted((m for m in list(sys.modules.values()) if getattr(m, '__file__', None)),
                       key=lambda m: m.__name__):
         f = getattr(mod, '__file__', None)
@@ -69,10 +80,19 @@ def shared_roots():
                 labels.append(mod.__name__.split('.')[-1] + '.' + k)
             elif isinstance(v, type) and getattr(v, '__module__', None) == mod.__name__:
                 for ck, cv in list(vars(v).items()):
-                    if not ck.startswith('__') and isinstance(cv, (dict, list, set)):
+                    if ck.startswith('__'):
+                        continue
+                    if isinstance(cv, (dict, list, set)):
                         names.add(ck)
                         roots.append(cv)
                         labels.append(mod.__name__.split('.')[-1] + '.' + k + '.' + ck)
+                    elif lib_instance(cv) and getattr(cv, '__dict__', None):
+                        # a stateful helper object shared by all instances of the class
+                        roots.append([cv])
+                        labels.append(mod.__name__.split('.')[-1] + '.' + k + '.' + ck)
+            elif lib_instance(v) and getattr(v, '__dict__', None) and k != 'one_step':
+                roots.append([v])        # a module-level stateful instance (singleton helper)
+                labels.append(mod.__name__.split('.')[-1] + '.' + k)
     return names, roots, labels
 
 
